@@ -15,7 +15,7 @@ import math
 import os
 import random
 
-from vh.core import MachineryError, guarded, Raised
+from vh.core import MachineryError, guarded, Raised, spell_flag
 
 OPS = ['write', 'write_noheader', 'append', 'load_ascii', 'to_dict', 'from_dict', 'write_json', 'load_json', 'to_df', 'from_df']
 
@@ -143,12 +143,13 @@ class Runner:
                 os.remove(p_)
         for op in hist:
             r = None
+            sp = len(steps) + len(src['evs'])       # options are spelled True / False, as numpy booleans, or 1 / 0
             if op == 'write':
-                r = guarded(cat.write_ascii, self.path, write_header=True)
+                r = guarded(cat.write_ascii, self.path, write_header=spell_flag(True, sp))
             elif op == 'write_noheader':
-                r = guarded(cat.write_ascii, self.path, write_header=False)
+                r = guarded(cat.write_ascii, self.path, write_header=spell_flag(False, sp), append=spell_flag(False, sp + 1))
             elif op == 'append':
-                r = guarded(cat.write_ascii, self.path, write_header=False, append=True)
+                r = guarded(cat.write_ascii, self.path, write_header=spell_flag(False, sp + 1), append=spell_flag(True, sp))
             elif op == 'load_ascii':
                 r = guarded(csep.load_catalog, self.path)
                 if not isinstance(r, Raised):
